@@ -1,4 +1,6 @@
 \* leader changes: log <= 3, 2 elections (stale leaders keep futures, entries overwritten by the new term), no crash.
+\* measured 2026-09-22: 1,731,569 distinct states, 2,519,818 generated, depth 96, 10 min 28 s (5 workers, loaded box)
+\* (with MaxCrash = 1: 5,518,714 distinct states, 25 min 40 s - too long for the tier)
 SPECIFICATION Spec
 CONSTANTS
   Node = {n1, n2, n3}
